@@ -17,12 +17,12 @@ def units():
                       kind="proof(full domain of predictor x step index x code, first two steps per channel; channels=%d)" % ch))
     for nm, entry, be in (("float32_write", "h_f32_write", "kissat"), ("float32_read", "h_f32_read", "kissat")):
         U.append({"name": "ieee." + nm, "props": ["C20"], "harness": "ieee_ser.harness.c", "entry": entry, "dfcc": False, "backend": be,
-                  "function": "float32.c:float32_le_%s, float32_be_%s" % (nm.split("_")[1], nm.split("_")[1]), "timeout": 1200,
+                  "function": "float32.c:float32_le_%s, float32_be_%s" % (nm.split("_")[1], nm.split("_")[1]), "timeout": 1200, "self_replay": True, "inputs": ["nd"], "replay_link": "all", "replay_exclude": [nm.split("_")[0] + ".c"],
                   "kind": "proof(full domain: every normal single precision value)",
                   "trusted": ["E1 models of frexp (normal doubles) and pow (2.0, small integer), written on the IEEE bit pattern"]})
     for nm, entry in (("double64_write", "h_f64_write"), ("double64_read", "h_f64_read")):
         U.append({"name": "ieee." + nm, "props": ["C20"], "harness": "ieee_ser64.harness.c", "entry": entry, "dfcc": False, "backend": "kissat",
-                  "function": "double64.c:double64_le_%s, double64_be_%s" % (nm.split("_")[1], nm.split("_")[1]), "timeout": 1200,
+                  "function": "double64.c:double64_le_%s, double64_be_%s" % (nm.split("_")[1], nm.split("_")[1]), "timeout": 1200, "self_replay": True, "inputs": ["nd"], "replay_link": "all", "replay_exclude": [nm.split("_")[0] + ".c"],
                   "cbmc_flags": ["--unwind", "10"], "kind": "proof(full domain: every normal double precision value)",
                   "trusted": ["E1 models of frexp (normal doubles), pow (2.0, small integer), fmod (x, 1.0), written on the IEEE definitions"]})
     for lay, fn in (("WAV", "wavlike_ima_seek"), ("AIFF", "aiff_ima_seek")):
